@@ -132,6 +132,13 @@ class Lexer:
         while self.current_char and self.current_char.isspace():
             self.advance()
 
+    def _is_long_bracket(self) -> bool:
+        """Whether the text at the current `[` is a complete long bracket opener, like [[ or [==["""
+        pos: int = self.pos + 1
+        while pos < self.text_len and self.text[pos] == "=":
+            pos += 1
+        return pos < self.text_len and self.text[pos] == "["
+
     def get_long_brackets(self) -> str:
         """Returns the inner content of long brackets, or none if there are no long brackets"""
         # check if in the right conditions
@@ -176,7 +183,7 @@ class Lexer:
         self.advance()
         self.advance()
         comment: str = ""
-        if self.current_char == "[" and self.peek() in ["[", "="]:
+        if self.current_char == "[" and self._is_long_bracket():
             comment = self.get_long_brackets()
         else:
             while self.current_char and self.current_char != "\n":
